@@ -103,12 +103,16 @@ def spec(cfg, structs, f):
             out = []
             for i in range(N):
                 vs = []; a, ab = mval('a', vs); out.append(mk(vs, [a, 'VI USize %d' % i], 'Ok (VB %s)' % ab[i], 'test %d' % i, 'bool', mode, ops))
+            for i in (N, N + 1, 18446744073709551615):     # documented panic: index out of range (never the hidden lane of the three-lane register masks)
+                vs = []; a, ab = mval('a', vs); out.append(mk(vs, [a, 'VI USize %d' % i], 'Panic', 'test %d panics' % i, 'bool', mode, ops))
             return out
         if tr is None and name == 'set' and f['has_self'] and len(f['params']) == 2:
             out = []
             for i in range(N):
                 vs = []; a, ab = mval('a', vs); vs.append(('v', 'bool')); new = list(ab); new[i] = 'v'
                 out.append(mk(vs, [a, 'VI USize %d' % i, 'VB v'], res_mask(new), 'set %d' % i, st, mode, ops))
+            for i in (N, N + 1, 18446744073709551615):
+                vs = []; a, ab = mval('a', vs); vs.append(('v', 'bool')); out.append(mk(vs, [a, 'VI USize %d' % i, 'VB v'], 'Panic', 'set %d panics' % i, st, mode, ops))
             return out
         if tr == 'PartialEq' and name == 'eq' and len(f['params']) == 1:
             vs = []; a, ab = mval('a', vs); b, bb = mval('b', vs)
